@@ -20,6 +20,7 @@ CONSTANTS
   MaxTrig,          \* budget of local triggers (acquire / expire / timers)
   MaxDup,           \* budget of duplications (delivery that keeps the copy, or a retransmission)
   MaxLoss,          \* budget of lost datagrams
+  MaxAdv,           \* budget of datagrams injected by the adversary (C03)
   Triggers,         \* enabled trigger kinds: subset of {"acquire","soft","hard","rekeyike","delike","dpd"}
   IkeDh,            \* [E -> Seq(group)]  IKE DH preference list of each endpoint
   ChildDh,          \* [E -> Seq(group)]  CHILD_SA PFS preference list (<<>> = no PFS)
@@ -41,11 +42,11 @@ VARIABLES
   kern,    \* [E -> SUBSET KSa] kernel SAD
   net,     \* set of datagrams in flight
   nspi,    \* [E -> Nat] next SPI counter (Fresh)
-  trig, dups, loss,   \* remaining budgets
+  trig, dups, loss, adv,   \* remaining budgets
   dh,      \* [E -> Nat] Diffie-Hellman operations performed (history, hidden by VIEW)
   last     \* label, parameters and outcome of the last action (history, hidden by VIEW)
 
-vars == <<sas, table, kern, net, nspi, trig, dups, loss, dh, last>>
+vars == <<sas, table, kern, net, nspi, trig, dups, loss, adv, dh, last>>
 
 -----------------------------------------------------------------------------------------------------
 \* helpers
@@ -131,7 +132,7 @@ EmptyInit ==
 Init ==
   /\ IF StartEstablished THEN EstabInit ELSE EmptyInit
   /\ net = {}
-  /\ trig = MaxTrig /\ dups = MaxDup /\ loss = MaxLoss
+  /\ trig = MaxTrig /\ dups = MaxDup /\ loss = MaxLoss /\ adv = MaxAdv
   /\ last = [a |-> "Init"]
 
 -----------------------------------------------------------------------------------------------------
@@ -202,7 +203,7 @@ Post(e, s, was, sas1, kern1) ==
 -----------------------------------------------------------------------------------------------------
 \* local triggers (entry points of the controller / timer sweep)
 
-UseTrig(kind) == kind \in Triggers /\ trig > 0 /\ trig' = trig - 1 /\ UNCHANGED <<dups, loss>>
+UseTrig(kind) == kind \in Triggers /\ trig > 0 /\ trig' = trig - 1 /\ UNCHANGED <<dups, loss, adv>>
 
 \* ikesacontroller.py:84-109: re-use the first listed IKE_SA (2 endpoints: every IKE_SA is with the peer) or create one
 CtlAcquire(e) ==
@@ -264,7 +265,7 @@ Retransmit(s) ==
   /\ s \in Listed(Owner(s)) /\ sas[s].st \in WaitingStates /\ sas[s].req # NoMsg /\ sas[s].req \notin net
   /\ IF FreeRetx THEN dups' = dups ELSE dups > 0 /\ dups' = dups - 1
   /\ net' = net \cup {sas[s].req}
-  /\ UNCHANGED <<sas, table, kern, nspi, trig, loss, dh>>
+  /\ UNCHANGED <<sas, table, kern, nspi, trig, loss, adv, dh>>
   /\ last' = [a |-> "Retransmit", s |-> s, out |-> sas[s].req]
 
 \* ... and after the budget the IKE_SA is closed unilaterally and reaped with its kernel SAs
@@ -273,7 +274,7 @@ GiveUp(s) ==
   /\ s \in Listed(Owner(s)) /\ sas[s].st \in WaitingStates /\ sas[s].req \notin net
   /\ IF FreeRetx THEN loss' = loss ELSE loss > 0 /\ loss' = loss - 1
   /\ Post(Owner(s), s, sas[s].st, [sas EXCEPT ![s].st = "DELETED"], kern[Owner(s)])
-  /\ UNCHANGED <<net, nspi, trig, dups, dh>>
+  /\ UNCHANGED <<net, nspi, trig, dups, adv, dh>>
   /\ last' = [a |-> "GiveUp", s |-> s, out |-> NoMsg]
 
 -----------------------------------------------------------------------------------------------------
@@ -501,7 +502,7 @@ CtlDispatch(m, keep) ==
   /\ m \in net
   /\ keep => dups > 0
   /\ dups' = IF keep THEN dups - 1 ELSE dups
-  /\ UNCHANGED <<trig, loss>>
+  /\ UNCHANGED <<trig, loss, adv>>
   /\ IF m.x = "INIT" /\ ~m.resp THEN
         \* CtlNewResponder: a fresh IKE_SA for every IKE_SA_INIT request; the cookie is armed under load
         LET s == <<e, nspi[e]>>
@@ -521,10 +522,29 @@ CtlDispatch(m, keep) ==
           ELSE IF ~m.resp THEN SaRequest(e, my, S, S.st, m, keep, nspi[e], sas)
           ELSE SaResponse(e, my, m, keep)
 
+
+\* ---------------------------------------------------------------------------------------------------
+\* C03: the adversary puts a datagram on the network that is NOT protected under the keys its target expects: cleartext,
+\* sealed with foreign keys ("garbage": also a corrupted or truncated authentic message), or the target's own direction
+\* (a reflected message).  SPIs, exchange type, flags and Message ID are chosen to pass every header check.
+AdvProts(S) == { Clear, << <<"garbage">>, IF S.init THEN "r" ELSE "i" >>, << S.keys, IF S.init THEN "i" ELSE "r" >> }
+AdvMids(S) == { S.peerMid, S.myMid } \cup (IF S.peerMid > 0 THEN {S.peerMid - 1} ELSE {})
+AdvForge(s, x, resp, fi, mid, prot) ==
+  LET S == sas[s]  e == Owner(s) IN
+  /\ adv > 0 /\ adv' = adv - 1
+  /\ s \in Listed(e) /\ S.keys # None
+  /\ prot \in AdvProts(S) /\ mid \in AdvMids(S)
+  /\ (x = "INIT") => resp                   \* an IKE_SA_INIT *request* always creates a new responder: not a message for this IKE_SA
+  /\ LET m == Msg(e, SpiIOf(S, s), SpiROf(S, s), x, resp, fi, mid, prot, [kind |-> "forged"]) IN
+     /\ m \notin net
+     /\ net' = net \cup {m}
+     /\ last' = [a |-> "AdvForge", s |-> s, m |-> m, out |-> NoMsg]
+  /\ UNCHANGED <<sas, table, kern, nspi, trig, dups, loss, dh>>
+
 NetDrop(m) ==
   /\ m \in net /\ loss > 0 /\ loss' = loss - 1
   /\ net' = net \ {m}
-  /\ UNCHANGED <<sas, table, kern, nspi, trig, dups, dh>>
+  /\ UNCHANGED <<sas, table, kern, nspi, trig, dups, adv, dh>>
   /\ last' = [a |-> "NetDrop", m |-> m, out |-> NoMsg]
 
 -----------------------------------------------------------------------------------------------------
@@ -535,6 +555,8 @@ Next ==
   \/ \E s \in DOMAIN sas : Retransmit(s) \/ GiveUp(s)
   \/ \E m \in net : \E keep \in BOOLEAN : CtlDispatch(m, keep)
   \/ \E m \in net : NetDrop(m)
+  \/ \E s \in DOMAIN sas : \E x \in {"INIT", "AUTH", "CCSA", "INFO"} : \E resp \in BOOLEAN : \E fi \in BOOLEAN :
+        \E mid \in AdvMids(sas[s]) : \E prot \in AdvProts(sas[s]) : AdvForge(s, x, resp, fi, mid, prot)
 
 Spec == Init /\ [][Next]_vars
 
@@ -570,7 +592,8 @@ MidMonotonic == [][\A s \in DOMAIN sas \cap DOMAIN sas' :
 \* at most one request outstanding: the stored request carries my current Message ID while I wait
 OneOutstanding == \A s \in DOMAIN sas : sas[s].st \in WaitingStates => sas[s].req # NoMsg /\ sas[s].req.mid = sas[s].myMid /\ ~sas[s].req.resp
 \* every datagram in flight has a well-formed header for its exchange
-HeaderOk == \A m \in net : /\ m.x \in {"INIT", "AUTH", "CCSA", "INFO"}
+HeaderOk == \A m \in {x \in net : x.body.kind # "forged"} :
+                           /\ m.x \in {"INIT", "AUTH", "CCSA", "INFO"}
                            /\ (m.x = "INIT") = (m.prot = Clear)         \* C07: only IKE_SA_INIT travels in the clear
                            /\ m.x = "INIT" => m.mid = 0
                            /\ m.x = "AUTH" => m.mid = 1
@@ -578,6 +601,14 @@ HeaderOk == \A m \in net : /\ m.x \in {"INIT", "AUTH", "CCSA", "INFO"}
 \* a replayed request changes nothing but the network; a dropped one nothing at all
 ReplayIsFree == [][(last'.a = "Deliver" /\ last'.how \in {"replay", "drop", "unknown", "unprotected", "flag", "spi"})
                      => sas' = sas /\ kern' = kern /\ dh' = dh /\ table' = table]_vars
+
+\* C03 ------------------------------------------------------------------------------------------
+\* a datagram that is not protected under the peer's keys changes nothing and elicits no reply
+Unprotected(m, S) == m.prot # ExpectProt(S)
+ForgeryHarmless == [][(last'.a = "Deliver" /\ last'.m.body.kind = "forged")
+                        => /\ last'.how \in {"unprotected", "unknown"}
+                           /\ sas' = sas /\ table' = table /\ kern' = kern /\ dh' = dh /\ nspi' = nspi
+                           /\ last'.out = NoMsg /\ net' \subseteq net]_vars
 
 \* C09 ------------------------------------------------------------------------------------------
 Quiescent == net = {} /\ \A s \in DOMAIN sas : sas[s].st \notin WaitingStates
